@@ -22,7 +22,9 @@
 EXTENDS Integers, Sequences, FiniteSets, TLC
 
 CONSTANTS MaxRank,     \* design run: objective ranks 0..MaxRank
-          MaxChain     \* design run: number of restarts explored
+          MaxChain,    \* design run: number of restarts explored
+          Variant      \* "none", or the name of a deliberately wrong mechanism (self-test of the
+                       \* invariants: "ClassifyEq", "SnapNitOff", "LSAnyTrial"); never used for verdicts
 
 VARIABLES
   cfg,      \* configuration of the current call (record, see MCDriver!Configs)
@@ -377,7 +379,8 @@ EndIter ==
 (* fact "projected gradient of (x, grad) <= gtol".                         *)
 Classified ==
   IF pg THEN [task |-> "PGTOL", success |-> TRUE]
-  ELSE IF nit >= cfg.maxiter THEN [task |-> "MAXITER", success |-> TRUE]
+  ELSE IF (IF Variant = "ClassifyEq" THEN nit = cfg.maxiter ELSE nit >= cfg.maxiter)
+       THEN [task |-> "MAXITER", success |-> TRUE]
   ELSE IF nfev >= cfg.maxfun THEN [task |-> "MAXFUN", success |-> TRUE]
   ELSE [task |-> task, success |-> success]
 
